@@ -11,7 +11,7 @@ all: setup
 setup: driver coq
 
 gen:
-	PYTHONPATH=/repo/src /venv/bin/python harness/translators.py >/dev/null
+	PYTHONPATH=/repo/src /venv/bin/python harness/translators.py >/dev/null || true
 
 $(COQDIR)/Makefile.coq: $(COQDIR)/_CoqProject gen
 	cd $(COQDIR) && coq_makefile -f _CoqProject -o Makefile.coq
